@@ -3,7 +3,7 @@ use nom::{
     branch::alt,
     bytes::complete::tag,
     character::complete::digit1,
-    combinator::{map, not, opt, peek},
+    combinator::{map, map_res, not, opt, peek},
     sequence::tuple,
 };
 
@@ -32,8 +32,8 @@ impl Parser for Field {
         // 1: required i32 name = 123;
         map(
             tuple((
-                map(tuple((digit1, opt(blank), tag(":"))), |(id, _, _)| {
-                    id.parse::<i32>().unwrap()
+                map_res(tuple((digit1, opt(blank), tag(":"))), |(id, _, _)| {
+                    id.parse::<i32>()
                 }),
                 opt(blank),
                 opt(Attribute::parse),
